@@ -329,6 +329,9 @@ func (r *run) Do(op string) string {
 	}
 	sidOf := func(i int) uint16 { n, _ := strconv.Atoi(f[i]); return uint16(n) }
 	switch f[0] {
+	case "stop": // Server.Stop(), as the process does on shutdown (the caller's context is cancelled with it)
+		r.cancel()
+		r.s.Stop()
 	case "padi":
 		r.feed(src, pppoe.EtherTypePPPoEDiscovery, disc(pppoe.CodePADI, 0, []pppoe.Tag{{Type: pppoe.TagServiceName}, {Type: pppoe.TagHostUniq, Value: []byte{1, 2}}}))
 	case "padr":
